@@ -758,7 +758,10 @@ def check_fit(ctx, repo, out, cls, bool_typed, eval_score_key, signs):
         out.add(scen, "undecided", "R4", "%s.fit:refit:guard" % D, "condition of the refit not evaluable: %s" % show(u.args[0] if u.args else "?"), loc0)
     flag_ev = [e for e in A.events if e.kind == "store" and e.attr == "_is_fitted"]
     top = [e for e in A.events if not e.stack and e.kind in ("call", "store")]
-    if len(flag_ev) != 1 or flag_ev[0].term != C(True):
+    if len(flag_ev) == 1 and is_const(flag_ev[0].term) and not cval(flag_ev[0].term):
+        out.add(scen, "violation", "R4", "%s.fit:_is_fitted" % D, "fit stores _is_fitted = %r: the tuner never counts as fitted and every "
+                "member raises NotFittedError after fit" % cval(flag_ev[0].term), L(flag_ev[0]), "false")
+    elif len(flag_ev) != 1 or flag_ev[0].term != C(True):
         out.add(scen, "violation" if not flag_ev else "undecided", "R4", "%s.fit:_is_fitted" % D,
                 "fit stores _is_fitted %d time(s)" % len(flag_ev), loc0, "count")
     else:
@@ -1051,6 +1054,28 @@ def check_delegators(ctx, repo, out, cls, callsig, guard_param):
         own = astq.param_names(f, skip_self=True)
         dels = [e for e in evs if e.kind == "call" and isinstance(e.callee, T) and e.callee.op == "attr" and e.callee.a[0] == BF]
         rets = [(st, t) for st, t in r.returns]
+        # defaults: tuner.m() must behave like best_forecaster_.m(), so a parameter that both signatures have carries the same default
+        import ast as _ast
+        bsig = base.methods.get(nm)
+        if bsig is not None:
+            bd, od = astq.param_defaults(bsig), astq.param_defaults(f)
+            for pn in own:
+                if pn in bd and pn in od:
+                    a_, b_ = od[pn], bd[pn]
+                    av = repo.resolve_expr(k.module, a_) if not isinstance(a_, _ast.Constant) else None
+                    bv = repo.resolve_expr(base.module, b_) if not isinstance(b_, _ast.Constant) else None
+                    va = a_.value if isinstance(a_, _ast.Constant) else (av.target.value if av is not None and av.kind == "const" and isinstance(av.target, _ast.Constant) else Ellipsis)
+                    vb = b_.value if isinstance(b_, _ast.Constant) else (bv.target.value if bv is not None and bv.kind == "const" and isinstance(bv.target, _ast.Constant) else Ellipsis)
+                    if va is Ellipsis or vb is Ellipsis:
+                        out.add(scen, "undecided", "R4", "%s:default(%s)" % (tag, pn), "default values are not constants", loc)
+                    else:
+                        out.check(scen, type(va) is type(vb) and va == vb, "R4", "%s:default(%s)" % (tag, pn), "default %r equals the delegate's" % (va,),
+                                  "tuner.%s(...) defaults %s=%r but a forecaster's own %s defaults %s=%r: called without that argument the tuner does not "
+                                  "behave like the forecaster built from best_params_" % (nm, pn, va, nm, pn, vb), loc, vkey="%r-vs-%r" % (va, vb))
+        if not dels and nm not in k.properties:
+            out.add(scen, "violation", "R4", tag + ":delegate", "%s never calls best_forecaster_.%s: the wrapped forecaster is not %s"
+                    % (nm, nm, "updated" if "update" in nm else "used"), loc, "no-delegate-call")
+            continue
         if not dels:
             # attribute delegation (property)
             good = bool(rets) and all(isinstance(t, T) and t.op == "attr" and t.a[0] == BF and t.a[1] == nm for _, t in rets)
